@@ -26,7 +26,7 @@ WEIGHTS = {'add': 7, 'addpack': 4, 'pack': 7, 'repack': 7, 'repack_pack': 5, 'de
 
 
 def strategy(tier='quick'):
-    return gen.history_case(WEIGHTS, min_ops=2, max_ops=16 if tier == 'quick' else 30, max_size=300000, boundary_weight=2, pool_max=5)
+    return gen.history_case(WEIGHTS, min_ops=2, max_ops=16 if tier == 'quick' else 30, max_size=300000, boundary_weight=3, pool_max=5)
 
 
 def checkers():
@@ -38,7 +38,7 @@ def nontrivial(world):
 
 
 def run_shard(ctx):
-    n = 50 if ctx.tier == 'quick' else 3600
+    n = 160 if ctx.tier == 'quick' else 6000
     ctx.set_budget(80 if ctx.tier == 'quick' else 1100)
     run_histories(ctx, PROP, strategy(ctx.tier), checkers, nontrivial, n)
 
